@@ -7,7 +7,6 @@ CLAIMS = {
   "note": "Trusted: CPython ast; the call-resolution of gxstat.callgraph (over-approximate on unknown receivers); declared Min/Max/AllowableRange constant-folded from source (1 declaration not foldable, reported). Not decided: pint errors for unit-suffixed inputs; list-valued parameters.",
   "technique": "AST dominance/typestate walk over ReadParameter + finite-ordering evaluation of the range predicate + call-graph routing and exception-handler analysis + exhaustive declaration-table check",
  },
-}
  "C08": {
   "text": "Static effect/typestate analysis of the clauses visible in code shape: every library wrapper and __main__ from which os.chdir or a sys.argv store is reachable in-process stashes the state and restores it in a finally covering every mutating site (P1, call-graph based, process-pool boundary respected); inventory of all process-wide mutable state (globals, class-level mutables, foreign-module attribute writes, 12 memoised functions) against an allow-list with reasons, anything new is a violation (P2); a run builds a fresh Model and all 541 parameter objects inside __init__ (P3); clock/uuid/hash/RNG values flow only to stamp lines, logs and temp-file names (P4); the client cache key depends on the request text and the cached/parsed result is the request's own (P5); no mutable default arguments (P6). Numerical identity of repeated runs is not decidable statically and is not claimed.",
   "note": "Trusted: gxstat call graph (by-name resolution on unknown receivers), allow-list rows in rules/c08.py (each with its reason). Assumes a callable handed to ProcessPoolExecutor runs in another process. Not decided: bit-identical floats across histories, third-party internal caches.",
